@@ -118,6 +118,38 @@ def expected_req_output(wire, maxc):
     return out, phase
 
 
+def handoff_replies_case(rng, variant):
+    """replies across the keep-alive hand-off stream parser -> request parser through the plain parser API (no compress(), no
+    set_stream(None) before into_request_parser): reply-owing records in the stream phase of request 1, delivered into caller
+    buffers (variant 0) or into the stream buffer (variant 1), their replies taken; then the conversion and request 2, whose preamble
+    carries further reply-owing records: over the whole chain every such record is answered exactly once"""
+    rid, maxc = 1, rng.choice([1, 999])
+    gv = record(GETVALUES, 0, gv_body(rng), rng.choice([0, 5]))
+    unk = record(rng.choice([12, 99, 200]), rng.choice([0, 1, 7]), [rng.randrange(256) for _ in range(rng.choice([0, 8, 13]))], rng.choice([0, 3]))
+    fb = record(BEGIN, 9, [0, 1, 0, 0, 0, 0, 0, 0], 0)
+    mid = [gv, unk, fb]
+    rng.shuffle(mid)
+    s1 = [record(STDIN, rid, list(b"abc"), 1)] + mid[:2] + [record(STDIN, rid, list(b"de"), 0)] + mid[2:] + [record(STDIN, rid, [], 0)]
+    pre2, _ = preamble(rng, 2, 1, 1, rand_pairs(rng, 1, 10), junk_rate=0.6, idle=1)
+    w = flat(minimal_preamble(rid, 1) + s1 + pre2)
+    if variant == 0:
+        ops = [[1, 10 ** 6, 1000], [1, 0, 1000], [4, 10 ** 6]]
+    else:
+        ops = [[0, 10 ** 6], [4, 10 ** 6]] + rng.choice([[], [[2, 2]]])
+    ops += [[6, 0, 2]]
+    return "str_run " + " ".join(fmt_arg(x) for x in [[rng.choice([1024, 8192])], [maxc], w] + ops), ["str", "handoff-replies"]
+
+
+_gen_cases_c04 = gen_cases
+
+
+def gen_cases(rng, tier):
+    yield from _gen_cases_c04(rng, tier)
+    for variant in (0, 1):
+        for _ in range(6 if tier == "quick" else 300):
+            yield handoff_replies_case(rng, variant)
+
+
 def oracle(line, impl_line):
     mode, a = parse_case(line)
     o = parse_out(impl_line)
@@ -172,6 +204,23 @@ def oracle(line, impl_line):
                 i += 2
             elif tag in (3, 4, 6):
                 i += 2
+            elif tag == 7:
+                # the hand-off to the next request parser (class handoff-replies): what the request parser emits for the rest of
+                # the wire must be exactly what is owed for the records from the Stdin terminator on, up to the end of preamble 2
+                if o[i][1] != 0 or o[i][2] != 1:
+                    return "the hand-off to the next request failed on compliant traffic (%s)" % o[i][1:]
+                term = next(j for j in range(k + 1, len(recs)) if recs[j][0] == STDIN and recs[j][1] == rid and not recs[j][2])
+                rep1, _ = replies_for(recs[k + 1:term], maxc, ("stream", rid))
+                end2 = next(j for j in range(term, len(recs)) if recs[j][0] == PARAMS and recs[j][1] == 2 and not recs[j][2])
+                rep2, _ = replies_for(recs[term:end2 + 1], maxc, ("idle",))
+                exp1 = [b for _, rb in rep1 for b in rb]
+                exp2 = [b for _, rb in rep2 for b in rb]
+                if total != exp1:
+                    return "stream phase emitted %d reply bytes, owed %d" % (len(total), len(exp1))
+                if o[i + 2] != exp2:
+                    return ("after the hand-off the request parser emitted %d reply bytes, owed %d: a record was answered twice or not at all"
+                            % (len(o[i + 2]), len(exp2)))
+                return True
             else:
                 break
         if exp[:len(total)] != total:
